@@ -27,11 +27,11 @@ open Saltpack Saltpack.Sender Saltpack.Stream
     only complete words of complete BaseX blocks go out before `Close`, and
     those are the same in the armor of every longer payload -/
 theorem farm_writes_prefix_ext (par : Armor.Params) (he : par.enc.WF) (hw : 0 < par.bytesPerWord) (hdr ftr : Bytes)
-    (sink : Stream.Sink) (ws : List Bytes) (Y : Bytes)
-    (hi : (FArm.init par hdr ftr ({ sink := sink } : Wr)).1 = true) :
-    (farmRun (FArm.init par hdr ftr ({ sink := sink } : Wr)).2 ws).w.bytes <+:
+    (sink : Stream.Sink) (part : List Nat) (ws : List Bytes) (Y : Bytes)
+    (hi : (FArm.init par hdr ftr ({ sink := sink, part := part } : Wr)).1 = true) :
+    (farmRun (FArm.init par hdr ftr ({ sink := sink, part := part } : Wr)).2 ws).w.bytes <+:
       Armor.sealText par hdr ftr (ws.flatten ++ Y) := by
-  obtain ⟨hs, hf, _⟩ := farm_init_sim par hdr ftr sink hi
+  obtain ⟨hs, hf, _⟩ := farm_init_sim par hdr ftr sink part hi
   obtain ⟨_, r2⟩ := run_sim ws _ _ hs (farm_encOk_init par hdr ftr _) hf
   have hsplit := armorWriter_any_split par he hw hdr ftr (ws ++ [Y])
   rw [List.foldl_append] at hsplit
@@ -91,17 +91,17 @@ end projD
 
 theorem armored_success_det (pieces : Bytes → List Bytes) (hp : ∀ b, (pieces b).flatten = b)
     (sp : Bytes → Bytes) (par : Armor.Params) (he : par.enc.WF) (hw : 0 < par.bytesPerWord)
-    (hdr ftr : Bytes) (sink : Stream.Sink) (headerBytes : Bytes) (ws : List Bytes)
-    (ha : (FArm.init par hdr ftr ({ sink := sink } : Wr)).1 = true)
-    (hi : (DSt.init FArm.write pieces (FArm.init par hdr ftr ({ sink := sink } : Wr)).2 headerBytes).1 = true)
+    (hdr ftr : Bytes) (sink : Stream.Sink) (part : List Nat) (headerBytes : Bytes) (ws : List Bytes)
+    (ha : (FArm.init par hdr ftr ({ sink := sink, part := part } : Wr)).1 = true)
+    (hi : (DSt.init FArm.write pieces (FArm.init par hdr ftr ({ sink := sink, part := part } : Wr)).2 headerBytes).1 = true)
     (hc : (armoredCloseD pieces sp (DSt.writes
-        (DSt.init FArm.write pieces (FArm.init par hdr ftr ({ sink := sink } : Wr)).2 headerBytes).2 ws).2).1 = none) :
+        (DSt.init FArm.write pieces (FArm.init par hdr ftr ({ sink := sink, part := part } : Wr)).2 headerBytes).2 ws).2).1 = none) :
     (armoredCloseD pieces sp (DSt.writes
-        (DSt.init FArm.write pieces (FArm.init par hdr ftr ({ sink := sink } : Wr)).2 headerBytes).2 ws).2).2.codec.w.w.bytes =
+        (DSt.init FArm.write pieces (FArm.init par hdr ftr ({ sink := sink, part := part } : Wr)).2 headerBytes).2 ws).2).2.codec.w.w.bytes =
       Armor.sealText par hdr ftr (headerPacket headerBytes ++ sp ws.flatten) ∧
     (armoredCloseD pieces sp (DSt.writes
-        (DSt.init FArm.write pieces (FArm.init par hdr ftr ({ sink := sink } : Wr)).2 headerBytes).2 ws).2).2.codec.w.w.faults = 0 := by
-  generalize ha0 : (FArm.init par hdr ftr ({ sink := sink } : Wr)).2 = a0 at hi hc ⊢
+        (DSt.init FArm.write pieces (FArm.init par hdr ftr ({ sink := sink, part := part } : Wr)).2 headerBytes).2 ws).2).2.codec.w.w.faults = 0 := by
+  generalize ha0 : (FArm.init par hdr ftr ({ sink := sink, part := part } : Wr)).2 = a0 at hi hc ⊢
   have hπ := hist_proj a0
   have hnil : a0 = farmRun a0 [] := rfl
   have e1 := proj_dinit FArm.write (histWrite a0) (farmRun a0) hπ pieces [] headerBytes
@@ -132,14 +132,14 @@ theorem armored_success_det (pieces : Bytes → List Bytes) (hp : ∀ b, (pieces
       | false => simp at hc
       | true =>
         simp only
-        have hrun := (farm_run_close par he hw hdr ftr sink fin.codec.w ha).1
+        have hrun := (farm_run_close par he hw hdr ftr sink part fin.codec.w ha).1
         rw [ha0, hac] at hrun
         obtain ⟨hf0, hbytes⟩ := hrun rfl
         have hnf : (farmRun a0 fin.codec.w).failed = false := by
           cases hff : (farmRun a0 fin.codec.w).failed with
           | false => rfl
           | true => rw [farm_close_failed _ hff] at hac; cases hac
-        have ha0f : a0.failed = false := by rw [← ha0]; exact (farm_init_sim par hdr ftr sink ha).2.1
+        have ha0f : a0.failed = false := by rw [← ha0]; exact (farm_init_sim par hdr ftr sink part ha).2.1
         have hall := okBytes_all fin.codec.w a0 ha0f hnf
         refine ⟨?_, hf0⟩
         rw [hbytes, ← hall, ho]
@@ -157,20 +157,20 @@ theorem armored_success_det (pieces : Bytes → List Bytes) (hp : ∀ b, (pieces
     part, so the writer holds a prefix of the armor of every such `M`. -/
 theorem armored_writes_prefix (cfg : Cfg) (hp : ∀ b, (cfg.pieces b).flatten = b) (hb : 0 < cfg.bs) (hif : IndexFail cfg.pkt)
     (v : Version) (par : Armor.Params) (he : par.enc.WF) (hw : 0 < par.bytesPerWord)
-    (hdr ftr : Bytes) (sink : Stream.Sink) (headerBytes : Bytes) (ws : List Bytes)
-    (ha : (FArm.init par hdr ftr ({ sink := sink } : Wr)).1 = true) :
+    (hdr ftr : Bytes) (sink : Stream.Sink) (part : List Nat) (headerBytes : Bytes) (ws : List Bytes)
+    (ha : (FArm.init par hdr ftr ({ sink := sink, part := part } : Wr)).1 = true) :
     ∃ H : List Bytes,
       (PSt.writes FArm.write cfg
-        (PSt.init FArm.write cfg.pieces (FArm.init par hdr ftr ({ sink := sink } : Wr)).2 headerBytes).2 ws).2.codec.w =
-        farmRun (FArm.init par hdr ftr ({ sink := sink } : Wr)).2 H ∧
+        (PSt.init FArm.write cfg.pieces (FArm.init par hdr ftr ({ sink := sink, part := part } : Wr)).2 headerBytes).2 ws).2.codec.w =
+        farmRun (FArm.init par hdr ftr ({ sink := sink, part := part } : Wr)).2 H ∧
       (∀ X B, planBytes cfg.pkt (Encrypt.chunkPlan v cfg.bs (ws.flatten ++ X)) 0 = .ok B →
-        okBytes (FArm.init par hdr ftr ({ sink := sink } : Wr)).2 H <+: headerPacket headerBytes ++ B) ∧
+        okBytes (FArm.init par hdr ftr ({ sink := sink, part := part } : Wr)).2 H <+: headerPacket headerBytes ++ B) ∧
       (∀ Y, (PSt.writes FArm.write cfg
-        (PSt.init FArm.write cfg.pieces (FArm.init par hdr ftr ({ sink := sink } : Wr)).2 headerBytes).2 ws).2.codec.w.w.bytes <+:
+        (PSt.init FArm.write cfg.pieces (FArm.init par hdr ftr ({ sink := sink, part := part } : Wr)).2 headerBytes).2 ws).2.codec.w.w.bytes <+:
           Armor.sealText par hdr ftr (H.flatten ++ Y)) ∧
-      ((farmRun (FArm.init par hdr ftr ({ sink := sink } : Wr)).2 H).failed = false →
-        okBytes (FArm.init par hdr ftr ({ sink := sink } : Wr)).2 H = H.flatten) := by
-  generalize ha0 : (FArm.init par hdr ftr ({ sink := sink } : Wr)).2 = a0
+      ((farmRun (FArm.init par hdr ftr ({ sink := sink, part := part } : Wr)).2 H).failed = false →
+        okBytes (FArm.init par hdr ftr ({ sink := sink, part := part } : Wr)).2 H = H.flatten) := by
+  generalize ha0 : (FArm.init par hdr ftr ({ sink := sink, part := part } : Wr)).2 = a0
   have hπ := hist_proj a0
   have hnil : a0 = farmRun a0 [] := rfl
   have e1 := proj_init FArm.write (histWrite a0) (farmRun a0) hπ cfg.pieces [] headerBytes
@@ -184,7 +184,7 @@ theorem armored_writes_prefix (cfg : Cfg) (hp : ∀ b, (cfg.pieces b).flatten = 
     (runInv_init (histWrite a0) (okBytes a0) (hist_obs a0) cfg hp v [] headerBytes)
   rw [List.nil_append] at hinv
   generalize (PSt.writes (histWrite a0) cfg (PSt.init (histWrite a0) cfg.pieces [] headerBytes).2 ws).2 = st at hinv ⊢
-  have ha0f : a0.failed = false := by rw [← ha0]; exact (farm_init_sim par hdr ftr sink ha).2.1
+  have ha0f : a0.failed = false := by rw [← ha0]; exact (farm_init_sim par hdr ftr sink part ha).2.1
   refine ⟨st.codec.w, rfl, ?_, ?_, fun hnf => okBytes_all st.codec.w a0 ha0f hnf⟩
   · intro X B hB
     have h0 : okBytes a0 ([] : List Bytes) = [] := rfl
@@ -211,6 +211,6 @@ theorem armored_writes_prefix (cfg : Cfg) (hp : ∀ b, (cfg.pieces b).flatten = 
   · intro Y
     have hmw : (mapP (farmRun a0) st).codec.w = farmRun a0 st.codec.w := rfl
     rw [hmw, ← ha0]
-    exact farm_writes_prefix_ext par he hw hdr ftr sink st.codec.w Y ha
+    exact farm_writes_prefix_ext par he hw hdr ftr sink part st.codec.w Y ha
 
 end Saltpack.Proofs.SenderP
